@@ -24,7 +24,7 @@ import gen  # noqa: E402
 VERIF = engine.VERIF
 LEAN = os.path.join(VERIF, "lean")
 ALLOWED_AXIOMS = {"propext", "Classical.choice", "Quot.sound"}
-ALL_FIELDS = ["D", "F", "R", "P", "T", "E", "roots", "wroots", "vals", "raws", "heap"]
+ALL_FIELDS = ["D", "F", "R", "P", "T", "E", "roots", "wroots", "vals", "raws", "C", "W", "heap"]
 
 # ---------------------------------------------------------------------------------------------
 # per-property configuration: which streams exercise it, which observation channels its statement
@@ -38,11 +38,11 @@ PROPS = {
                 title="orphaned group destroyed in full, synchronously"),
     "C04": dict(streams=["corpus", "contract", "weakheavy", "api", "exh2"], fields=["F", "heapobjs"], oracles=["O4"],
                 contract=True, title="destroyed objects return all memory", leakcheck=True),
-    "C05": dict(streams=["corpus", "weakheavy", "contract", "script"], fields=["R", "F", "wroots", "roots"],
+    "C05": dict(streams=["corpus", "weakheavy", "contract", "script", "api"], fields=["R", "F", "W", "wroots", "roots"],
                 oracles=["O5"], contract=True, title="Weak observes destruction exactly"),
-    "C06": dict(streams=["corpus", "contract", "weakheavy", "raw"], fields=["heapcounts", "R", "roots", "wroots"],
+    "C06": dict(streams=["corpus", "contract", "weakheavy", "raw", "api"], fields=["heapcounts", "C", "W", "R", "roots", "wroots"],
                 oracles=["O6"], contract=False, title="counts and identity exact"),
-    "C07": dict(streams=["noadopt"], fields=["D", "R", "roots", "wroots", "vals", "raws", "heapcounts"], oracles=[],
+    "C07": dict(streams=["noadopt"], fields=["D", "R", "roots", "wroots", "vals", "raws", "C", "W", "heapcounts"], oracles=[],
                 contract=False, title="without adoptions identical to std", std=True),
     "C08": dict(streams=["corpus", "contract", "raw", "exh2"], fields=["heap"], oracles=["O8"], contract=False,
                 title="bookkeeping exact, symmetric, no dead names"),
@@ -52,7 +52,7 @@ PROPS = {
                 title="re-entrant destructors"),
     "C11": dict(streams=["panic"], fields=["D", "P", "E", "F", "heapcounts", "roots"], oracles=["O1", "O2", "O5", "O6"],
                 contract=True, title="panicking destructor"),
-    "C12": dict(streams=["api", "corpus"], fields=["heap", "R", "E", "D", "F", "vals", "roots", "raws"],
+    "C12": dict(streams=["api", "corpus"], fields=["heap", "R", "E", "D", "F", "vals", "roots", "raws", "C", "W"],
                 oracles=["O1", "O2", "O4", "O8"], contract=True, title="consuming APIs on adopted objects"),
     "C13": dict(streams=["elide", "corpus"], fields=["D", "E", "heap", "roots"], oracles=["O1", "O2"], contract=False,
                 title="elided unadopt", known="D4"),
@@ -384,7 +384,7 @@ def std_differential(cases):
                 if (oa is None) != (ob is None):
                     bad.append((name, ex[:i + 1], "stop", str(sa["stop"]), str(sb["stop"])))
                 break
-            diff = [f for f in ("Dseq", "R", "P", "E", "roots", "wroots", "vals", "raws") if oa[f] != ob[f]]
+            diff = [f for f in ("Dseq", "R", "P", "E", "roots", "wroots", "vals", "raws", "C", "W") if oa[f] != ob[f]]
             if diff:
                 bad.append((name, ex[:i + 1], diff[0], oa[diff[0]], ob[diff[0]]))
                 break
